@@ -11,14 +11,14 @@ TRUSTED_BASE = [
 _INSTR_TRUSTED = ["modelled, not verified: go/parser positions and go/printer re-formatting (A1, A2), astutil import editing (A3); internal/absast extractor (never calls goat functions) is trusted to report node kinds, Walk order and line numbers faithfully"]
 
 PROPS = {
-    "C01": dict(lean=["GoatSpec.Properties.C01"], streams=["marks-corpus", "marks-stdlib", "marks-gen"], e2e=["track"], trusted=_INSTR_TRUSTED,
+    "C01": dict(lean=["GoatSpec.Properties.C01", "GoatSpec.Properties.Pools"], streams=["marks-corpus", "marks-stdlib", "marks-gen"], e2e=["track"], trusted=_INSTR_TRUSTED,
                 assumptions=["A1: inserting the 4-line block at a statement boundary of a function body, plus one import, keeps the package compiling"]),
-    "C02": dict(lean=["GoatSpec.Properties.C02"], streams=["marks-corpus", "marks-stdlib", "marks-gen"], e2e=["track"], trusted=_INSTR_TRUSTED,
+    "C02": dict(lean=["GoatSpec.Properties.C02", "GoatSpec.Properties.Pools"], streams=["marks-corpus", "marks-stdlib", "marks-gen"], e2e=["track"], trusted=_INSTR_TRUSTED,
                 assumptions=["A2: go/printer∘go/parser preserves syntax tree and comments", "A3: astutil.AddNamedImport only edits import declarations"]),
     "C03": dict(lean=["GoatSpec.Properties.C03"], streams=["marks-corpus", "marks-stdlib", "marks-gen"], e2e=["track"], trusted=_INSTR_TRUSTED, assumptions=[]),
     "C09": dict(lean=["GoatSpec.Properties.C09", "GoatSpec.Properties.C09Shape"], streams=["marks-corpus", "marks-stdlib", "marks-gen"], e2e=["track"], trusted=_INSTR_TRUSTED, assumptions=[]),
     "C06": dict(
-        lean=["GoatSpec.Properties.C06"],
+        lean=["GoatSpec.Properties.C06", "GoatSpec.Properties.Pools"],
         streams=["text-pass-raw", "text-clean-tokens", "text-clean-file"],
         e2e=["track"],
         trusted=["modelled, not verified: Go regexp engine on whole lines (tied by exhaustive small arrangements), go/parser+go/printer re-formatting, astutil import deletion, os file API"],
@@ -34,7 +34,7 @@ PROPS = {
         assumptions=["A7: sync/atomic, net/http, encoding/json behave as documented; a Track call with race:true is a single atomic read-modify-write (theorem atomic_interleave is about interleavings of such steps; without race only sequential callers are in scope)",
                      "Values as goat builds them: TrackIds = 1..N in order, component ids = positions, component names pairwise distinct, component ids within 1..N (anything else does not compile)"],
     ),
-    "C05": dict(lean=["GoatSpec.Properties.C05"], streams=["ids"], e2e=["track", "patch"],
+    "C05": dict(lean=["GoatSpec.Properties.C05", "GoatSpec.Properties.Pools"], streams=["ids"], e2e=["track", "patch"],
                 trusted=["modelled, not verified: regexp.QuoteMeta replacement of the placeholder (utils.Replace), text/template rendering of the generated package, go/parser ImportsOnly; directory names are abstract identifiers in the closure model"],
                 assumptions=["the generated file's const block is `TRACK_ID_START = iota` followed by the ids in list order (checked end to end by parsing the generated file)"]),
     "C13": dict(lean=["GoatSpec.Properties.C13"], streams=["paths"], e2e=["track-decoys"],
@@ -49,7 +49,7 @@ PROPS = {
                  "abstractions: Go's nil slice and the empty slice are both [] (goat init and the emitted YAML never produce an empty non-nil slice); strconv.Quote is modelled on printable text plus newline, tab, carriage return"],
         assumptions=["A9: yaml.v3 agrees with the line-level loader on the emitted shapes (monitored: real LoadConfig vs model load on every generated and mutated file)"],
     ),
-    "C10": dict(lean=["GoatSpec.Properties.C10"], streams=["text-pass-raw", "text-patch-tokens", "text-patch-file"], e2e=["patch"],
+    "C10": dict(lean=["GoatSpec.Properties.C10", "GoatSpec.Properties.Pools"], streams=["text-pass-raw", "text-patch-tokens", "text-patch-file"], e2e=["patch"],
                 trusted=["modelled, not verified: Go regexp engine on whole lines (tied exhaustively on small arrangements), go/parser+go/printer, astutil import editing, template rendering of the generated file"],
                 assumptions=["A2/A3 as for C02/C06; 'the project still compiles' is an end-to-end oracle (go build), not a theorem"]),
     "C11": dict(lean=["GoatSpec.Properties.C11"], streams=[], e2e=["sequences"],
@@ -78,7 +78,7 @@ PROPS = {
                      "the repository and file contents; paths of changed files are pairwise distinct"],
     ),
     "C14": dict(
-        lean=["GoatSpec.Properties.C14"],
+        lean=["GoatSpec.Properties.C14", "GoatSpec.Properties.Pools"],
         streams=[],
         e2e=["behaviour"],
         partial="PARTIAL. Proved (Lean, every program given as a labelled transition system over UserState x Coverage - nondeterministic, any number of goroutines inside the state - every trace, "
